@@ -1114,6 +1114,7 @@ func (c *ControlPlane) InheritDialerHealthFrom(previous *ControlPlane) bool {
 	}
 
 	var hasOverlap bool
+	restoredDialers := make(map[*dialer.Dialer]struct{})
 
 	previousGroups := make(map[string]*outbound.DialerGroup, len(previous.outbounds))
 	for _, group := range previous.outbounds {
@@ -1144,7 +1145,12 @@ func (c *ControlPlane) InheritDialerHealthFrom(previous *ControlPlane) bool {
 				continue
 			}
 			if oldDialer := oldDialers[d.Property().Name]; oldDialer != nil {
-				d.RestoreHealthSnapshot(oldDialer.ReloadHealthSnapshot())
+				// A dialer shared by several groups is restored once: restoring it again for a later group
+				// would undo the selection floor an earlier group has just applied to it.
+				if _, done := restoredDialers[d]; !done {
+					restoredDialers[d] = struct{}{}
+					d.RestoreHealthSnapshot(oldDialer.ReloadHealthSnapshot())
+				}
 				hasOverlap = true
 			}
 		}
